@@ -393,6 +393,22 @@ func (e *c11Env) second(done <-chan struct{}, cancel func(), responder string, a
 		} else if responder != "-" {
 			stop := e.stopOn(done)
 			from := c07Peer(responder)
+			if bully {
+				// this relayer follows the re-elected coordinator: BEFORE that one speaks, the other peers of the scenario —
+				// the excluded culprit among them — send their own initiate and start messages; all must be ignored
+				early, _ := message.MarshalStartMessage([]byte("px"))
+				for _, p := range arrivals {
+					if p == from || p == e.self {
+						continue
+					}
+					if r := cm.deliver(e.sid, comm.TssInitiateMsg, p, []byte{}, stop); r != "ok" {
+						break
+					}
+					if r := cm.deliver(e.sid, comm.TssStartMsg, p, early, stop); r != "ok" {
+						break
+					}
+				}
+			}
 			params := []byte("p1")
 			if e.startParams != nil {
 				params = e.startParams
@@ -494,7 +510,7 @@ func (e *c11Env) second(done <-chan struct{}, cancel func(), responder string, a
 // c11ErrClass: the typed cause found in a returned error (errors.As), `other` for any untyped error, `ok` for nil.
 func c11ErrClass(err error) string {
 	switch c := c07ErrClass(err); c {
-	case "fail", "timeout", "pending":
+	case "err":
 		return "other"
 	default:
 		return c
